@@ -16,7 +16,8 @@ Inductive action :=
 Definition table := list (list action).
 
 (* column 0: resumed by a send; column i+1: resumed by a throw of the i-th of these *)
-Definition thrown : list exc := [ValueErr; KeyErr; GenExit; StopIter; StopAsyncIter].
+Definition thrown : list exc :=
+  [ValueErr; KeyErr; GenExit; StopIter; StopAsyncIter; KeyboardInt; SystemExitErr; CancelledErr; UserSignal].
 
 Fixpoint idx (l : list Z) (x : Z) : option nat :=
   match l with
@@ -42,7 +43,7 @@ Definition tbody (t : table) : body Z := fun s r =>
       | None => BRaise OtherErr
       | Some row =>
           match nth_error row c with
-          | None => BRaise OtherErr
+          | None => reraise r                      (* a short row: no handler for this exception *)
           | Some (AY k echo n) => BYield (k + (if echo then sent r else 0)) n
           | Some (AR k echo) => BReturn (k + (if echo then sent r else 0))
           | Some (AX e) => BRaise e
